@@ -41,7 +41,7 @@ RANGES = [
 
 
 def corpus(chk):
-    return gen.corpus(id)
+    return [(n, s) for n, s in gen.corpus(id) if not (s and s[0].startswith("xl "))]
 
 
 def _fmt8(k):
